@@ -34,7 +34,7 @@ def cases(tier, seed):
     setups = ["np2", "ga2", "bs1"]
     for st_loc in types:
         for setup in setups:
-            for agg in ["all", "cf_pc", "pc_cf"] if tier == "quick" else ["all", "cf_pc", "pc_cf", "pc_cc", "cf", "cc"]:
+            for agg in ["all", "cf_pc", "pc_cf", "cc_pc_cf"] if tier == "quick" else ["all", "cf_pc", "pc_cf", "cc_pc_cf", "pc_cc", "cf", "cc"]:
                 for policy in ("drop", "zero"):
                     out.append(dict(seed=seed, bg=dict(S.bg_for(setup), partial=2), probes=[list(st_loc)], cfg=S.cfg_for(setup, agg, policy, 100)))
     pairs = S.multisets(S.probe_types(statuses=["nonrep0", "nonrep_partial", "nonrep_exceed", "unexpected", "zero_baseline", "unit_blocklisted", "missing"]), 2)
@@ -61,6 +61,15 @@ def cases(tier, seed):
                     out.append(
                         dict(seed=seed, bg=dict(S.bg_for(setup), n=24, partial=6), probes=[list(st_loc) + [d]], cfg=S.cfg_for(setup, agg, "drop", 100, office="H"))
                     )
+    # a statewide office whose units carry a district column, district table requested (only the sum over the district table
+    # is judged: the statement does not say which district an unexpected unit of such an office belongs to)
+    for setup in ("np1", "ga1", "np2"):
+        for probes in ([["unexpected", "pop0"]], [["unexpected", "newcounty"]], [["unexpected", "pop0"], ["zero_baseline", "pop1"]], [["nonrep_partial", "pop0"]]):
+            for policy in ("drop", "zero"):
+                cfg = S.cfg_for(setup, "pc", policy, 100)
+                cfg["aggregates"] = ["postal_code", "district", "unit"]
+                cfg["district_column"] = True
+                out.append(dict(seed=seed, bg=dict(S.bg_for(setup), partial=2), probes=[list(p) for p in probes], cfg=cfg, statewide_district=True))
     # gaussian group structures of C15 (own / state / all-units calibration side by side, one or two states): every group without
     # outstanding units must carry a zero-width interval at its own counted votes, every prediction the sum of its units
     import itertools
@@ -117,13 +126,17 @@ def bootstrap_reference(client, units, cfg, cats, level, alpha):
             pz += w * z
             pyz += w * (y * z)
         for uid in g["passthrough"]:
-            r = unx_by[uid]
-            n1 += float(r.results_margin)
-            n2 += float(r.results_margin)
-            d1 += float(r.results_weights)
-            d2 += float(r.results_weights)
-            pz += float(r.results_weights)
-            pyz += float(r.results_margin)
+            # counted votes of a unit outside the model: from the scenario, not from a frame the run may have touched
+            eff = cats[uid]["eff"]
+            rm, rw = float(eff["r_dem"] - eff["r_gop"]), float(eff["r_dem"] + eff["r_gop"])
+            if uid in unx_by and (float(unx_by[uid].results_margin) != rm or float(unx_by[uid].results_weights) != rw):
+                raise RuntimeError(f"reference and handler disagree on the counted votes of {uid}")
+            n1 += rm
+            n2 += rm
+            d1 += rw
+            d2 += rw
+            pz += rw
+            pyz += rm
         for uid in g["predict"]:
             i = row_of[uid]
             n1 += m.errors_B_1[i]
@@ -158,6 +171,10 @@ def evaluate(case):
             cov["runs_with_zero_total_group"] += 1
     cfg = case["cfg"]
     pm = cfg["pi_method"]
+    if case.get("statewide_district"):
+        for i, u in enumerate(sorted(units, key=lambda u: u["id"])):
+            u["district"] = ["1", "10", "2"][i % 3]
+        return _statewide_district(case, units, cfg, cov)
     res = E.run_estimates(units, cfg, keep_client=True)
     V = []
 
@@ -260,4 +277,33 @@ def evaluate(case):
     }
 
 
-REQUIRED_COUNTERS = {"runs_completed": 300, "pred_identities": 500, "interval_identities": 300, "bootstrap_rows_recomputed": 300, "gaussian_structures": 50, "no_outstanding_rows": 200}
+def _statewide_district(case, units, cfg, cov):
+    """district table of a statewide office: every column of the district rows sums to the state row and to the unit rows"""
+    pm = cfg["pi_method"]
+    res = E.run_estimates(units, cfg)
+    V = []
+    if "error" in res:
+        cov["runs_raised_" + res["error"][0]] += 1
+        return {"violations": V, "cov": dict(cov), "outcome": "error:" + res["error"][0], "nontrivial": False, "note": {k: res[k] for k in ("error", "tb")}}
+    cov["runs_completed"] += 1
+    cov["statewide_office_district_tables"] += 1
+    t = res["ok"]
+    st, di, un = E.tab_rows(t["state_data"]), E.tab_rows(t["district_data"]), E.tab_rows(t["unit_data"])
+    for e in cfg["estimands"]:
+        cols = [f"results_{e}", f"pred_{e}"] + ([c for a in cfg["alphas"] for c in (f"lower_{a}_{e}", f"upper_{a}_{e}")] if pm == "nonparametric" else [])
+        for c in cols:
+            s_state = sum(float(r[c]) for r in st)
+            s_dist = sum(float(r[c]) for r in di)
+            s_unit = sum(float(r[c]) for r in un)
+            if s_state != s_dist:
+                V.append({"sig": f"C02:district-table-does-not-sum-to-state:{pm}", "msg": f"statewide office with a district table, probes {case['probes']}: sum of {c} over district rows = {s_dist}, state rows = {s_state}, unit rows = {s_unit}"})
+            if s_state != s_unit:
+                V.append({"sig": f"C02:levels-disagree:{pm}", "msg": f"statewide office with a district table, probes {case['probes']}: sum of {c} over state rows = {s_state}, unit rows = {s_unit}"})
+            cov["level_sum_comparisons"] += 2
+    uniq = {}
+    for v in V:
+        uniq.setdefault(v["sig"], v)
+    return {"violations": list(uniq.values()), "cov": dict(cov), "outcome": sha({k: v["rows"] for k, v in t.items()})[:16], "nontrivial": True}
+
+
+REQUIRED_COUNTERS = {"statewide_office_district_tables": 10, "runs_completed": 300, "pred_identities": 500, "interval_identities": 300, "bootstrap_rows_recomputed": 300, "gaussian_structures": 50, "no_outstanding_rows": 200}
